@@ -1,3 +1,14 @@
 package sym
 
-func registerReflectNatives(P *Program, reg func(string, func(fr *frame, args []value) value)) {}
+import "go/types"
+
+// reflect.go: minimal reflect natives (package initialisers that only stash a reflect.Type).
+
+func registerReflectNatives(P *Program, reg func(string, func(fr *frame, args []value) value)) {
+	reg("reflect.TypeOf", func(fr *frame, a []value) value {
+		in := a[0].(iface)
+		return iface{t: types.Typ[types.UnsafePointer], v: &opaque{kind: "reflect.Type", data: in.t}}
+	})
+	reg("regexp.MustCompile", func(fr *frame, a []value) value { return (*value)(nil) })
+	reg("regexp.Compile", func(fr *frame, a []value) value { return tuple{(*value)(nil), iface{}} })
+}
